@@ -585,6 +585,20 @@ Proof.
   destruct (Z.eqb_spec (((w - 2) / 2) mod 2) 0); destruct (Z.eqb_spec ((- w / 2) mod 2) 0); lia.
 Qed.
 
+(* where the output slice starts: centred would be h for window_len = 2h+1 *)
+Lemma round_half_start h : 0 <= h ->
+  py_round_half (2 * h + 1 - 2) = h - h mod 2 /\ py_round_half (2 * h - 2) = h - 1.
+Proof.
+  intros Hh. unfold py_round_half. rewrite !even_mod.
+  pose proof (Z.div_mod h 2 ltac:(lia)). pose proof (Z.mod_pos_bound h 2 ltac:(lia)).
+  pose proof (Z.div_mod (2 * h + 1 - 2) 2 ltac:(lia)). pose proof (Z.mod_pos_bound (2 * h + 1 - 2) 2 ltac:(lia)).
+  pose proof (Z.div_mod (2 * h - 2) 2 ltac:(lia)). pose proof (Z.mod_pos_bound (2 * h - 2) 2 ltac:(lia)).
+  pose proof (Z.div_mod ((2 * h + 1 - 2) / 2) 2 ltac:(lia)). pose proof (Z.mod_pos_bound ((2 * h + 1 - 2) / 2) 2 ltac:(lia)).
+  split.
+  - destruct (Z.eqb_spec ((2 * h + 1 - 2) mod 2) 0); destruct (Z.eqb_spec (((2 * h + 1 - 2) / 2) mod 2) 0); lia.
+  - destruct (Z.eqb_spec ((2 * h - 2) mod 2) 0); lia.
+Qed.
+
 Lemma pyslice_length {A} a b (l : list A) :
   0 <= a -> b < 0 -> a <= Z.of_nat (length l) + b ->
   Z.of_nat (length (pyslice a b l)) = Z.of_nat (length l) + b - a.
@@ -897,6 +911,18 @@ Proof.
   rewrite unfill_sum by lia. specialize (Hcount k Hk).
   assert (Hne : ofnat (Z.to_nat (count_eq k entries)) <> rO) by (apply Hchar; lia).
   field. exact Hne.
+Qed.
+
+Theorem denoise_n_identity (derank : list R -> list R) (entries : list Z) (w : list R) (niter : nat) :
+  (forall n, (0 < n)%nat -> ofnat n <> rO) ->
+  (forall k, 0 <= k < Z.of_nat (length w) -> 0 < count_eq k entries) ->
+  derank (fill R rO entries w) = fill R rO entries w -> (1 <= niter)%nat ->
+  denoise_n R rO rI radd rdiv derank entries niter w = w.
+Proof.
+  intros Hchar Hcount Hd Hn. pose proof (denoise_identity derank entries w Hchar Hcount Hd) as H1.
+  unfold denoise_n. destruct niter as [|k]; [lia|]. clear Hn.
+  generalize (S k). intros m. induction m as [|m IH]; cbn [denoise_iter]; [reflexivity|].
+  rewrite H1. exact IH.
 Qed.
 
 (* ---------------- non_uniform_savgol reproduces polynomials ---------------- *)
